@@ -31,6 +31,7 @@ type PropConfig struct {
 	JSONSweep     bool           `json:"jsonable_sweep"`
 	Confine       *ConfineConfig `json:"confine"`
 	GoSweep       *GoSweepConfig `json:"go_sweep"`
+	Patient       []string       `json:"patient"`        // regexps on obligation IDs that need seconds on the unchanged tree: retried with nine times the time before they count as open
 	ReceiverFrame []string       `json:"receiver_frame"` // regexps on short keys: handlers that must not write their (shared) receiver
 	// accessors of keyed shared state (short key -> why): the rule does not look inside them, but each must be
 	// verified in the same run against a contract with a frame check (its clauses say which entries it touches)
@@ -162,6 +163,20 @@ func cmdCheck(args []string) {
 		opt.allAgree = true
 		opt.workers = 5
 	}
+	if len(cfg.Patient) > 0 {
+		var pres []*regexp.Regexp
+		for _, p := range cfg.Patient {
+			pres = append(pres, regexp.MustCompile(p))
+		}
+		opt.patient = func(id string) bool {
+			for _, re := range pres {
+				if re.MatchString(id) {
+					return true
+				}
+			}
+			return false
+		}
+	}
 	var all []*Obligation
 	var results []*FuncResult
 	fnOf := map[string]*ssa.Function{}
@@ -263,7 +278,7 @@ func cmdCheck(args []string) {
 	dischargeAll(pending(all), opt)
 	if os.Getenv("VERIF_LIST") != "" {
 		for _, o := range all {
-			fmt.Printf("  %-8s %-9s %s  [%s]\n", o.Kind, o.Verdict, o.ID, o.Pos)
+			fmt.Printf("  %-8s %-9s %6.1fs %-22s %s  [%s]\n", o.Kind, o.Verdict, o.Time, o.Solver, o.ID, o.Pos)
 		}
 	}
 
